@@ -39,6 +39,29 @@ def gen_p10(types, emb):
     return {"module": "Gen_Moments", "cfg": "Gen_Moments_p10.cfg", "family": "moments", "types": types, "embeddings": emb}
 
 
+MC_W = {"module": "MC_Weighted", "cfg": "MC_Weighted.cfg", "overrides": {"MaxLen": ("2", "2")}}
+MC_W1 = {"module": "MC_Weighted", "cfg": "MC_Weighted.cfg", "overrides": {"MaxLen": ("3", "4"), "Slots": "{1}"}}
+MC_C = {"module": "MC_Covariance", "cfg": "MC_Covariance.cfg", "overrides": {"MaxLen": ("2", "2")}}
+MC_C1 = {"module": "MC_Covariance", "cfg": "MC_Covariance.cfg", "overrides": {"MaxLen": ("3", "4"), "Slots": "{1}"}}
+WE = "E0:W0,E1:W1,E2:W2,E3:W0,E4:W1,E5:W2"
+CE = "E0:E0,E3:E5,E1:E2,E4:E0,E5:E3"
+
+
+def gen_pair(fam, mode, emb, types=None, maxlen=None, depth=None, slots=None):
+    """fam: Weighted | Covariance; mode: seq | tree | hist"""
+    ov = {}
+    if maxlen:
+        ov["MaxLen"] = maxlen
+    if depth:
+        ov["MaxDepth"] = depth
+    if slots:
+        ov["Slots"] = slots
+    j = {"module": "Gen_" + fam, "cfg": "Gen_%s_%s.cfg" % (fam, mode), "overrides": ov, "family": fam.lower(), "embeddings": emb}
+    if types:
+        j["types"] = types
+    return j
+
+
 PROPS = {
     "C01": {
         "title": "streaming mean/variance equal the exact statistics",
@@ -83,7 +106,7 @@ PROPS = {
     "C10": {
         "title": "bias-corrected sample statistics follow their textbook definitions",
         "mc": [MC_SEQ],
-        "replay": [gen_seq("Variance,Skewness,Kurtosis," + GENERIC, "E0,E1,E2,E3,E5"), gen_tree("Variance,Kurtosis,Moments4,M6", "E0,E3")],
+        "replay": [gen_pair("Weighted", "seq", "E0:W0,E3:W1,E5:W2", types="WeightedMeanWithError", maxlen=("4", "5")), gen_seq("Variance,Skewness,Kurtosis," + GENERIC, "E0,E1,E2,E3,E5"), gen_tree("Variance,Kurtosis,Moments4,M6", "E0,E3")],
         "rule": "as C01; sample_variance / variance_of_mean / error on every type that has them, sample_skewness and "
                 "sample_excess_kurtosis on all define_moments! types, sentinel rows below the minimum sample size",
         "bounds": {"quick": "L <= 5", "thorough": "L <= 7"},
@@ -91,8 +114,8 @@ PROPS = {
     },
     "C11": {
         "title": "the empty estimator is an exact identity of merge; lengths add exactly",
-        "mc": [MC_MERGE],
-        "replay": [gen_hist(ALLM, "E0,E3,E5"), gen_tree(ALLM, "E0")],
+        "mc": [MC_W, MC_C, MC_MERGE],
+        "replay": [gen_pair("Weighted", "hist", "E0:W0,E5:W2", depth=("3", "4")), gen_pair("Covariance", "hist", "E0:E0,E3:E5", depth=("3", "4")), gen_hist(ALLM, "E0,E3,E5"), gen_tree(ALLM, "E0")],
         "rule": "every add/merge/clone/fresh/checkpoint history to the depth bound over two slots; at every merge the "
                 "destination's and source's full accessor vectors are compared bit for bit before/after",
         "bounds": {"quick": "depth <= 4", "thorough": "depth <= 5"},
@@ -100,8 +123,8 @@ PROPS = {
     },
     "C16": {
         "title": "empty, one-observation and constant samples follow the documented contract",
-        "mc": [MC_SEQ, MC_MERGE],
-        "replay": [gen_seq(ALLM, E05), gen_hist(ALLM, "E0")],
+        "mc": [MC_W1, MC_C1, MC_SEQ, MC_MERGE],
+        "replay": [gen_pair("Weighted", "seq", "E0:W0,E5:W2", maxlen=("4", "5")), gen_pair("Covariance", "seq", "E0:E0,E3:E5", maxlen=("4", "5")), gen_seq(ALLM, E05), gen_hist(ALLM, "E0")],
         "rule": "every accessor of every type at n = 0..4 and on every constant sequence in the enumerated set, sentinel class "
                 "or exact value required",
         "bounds": {"quick": "L <= 5", "thorough": "L <= 7"},
@@ -109,8 +132,8 @@ PROPS = {
     },
     "C17": {
         "title": "variances are never negative and means stay within the data range",
-        "mc": [MC_SEQ, MC_MERGE],
-        "replay": [gen_seq(ALLM, E09), gen_tree(ALLM, "E0,E4,E6,E7,E8,E9"), gen_hist(ALLM, "E6,E7,E8,E9")],
+        "mc": [MC_W, MC_C, MC_SEQ, MC_MERGE],
+        "replay": [gen_pair("Weighted", "tree", "E0:W0,E6:W1,E7:W2,E8:W0,E9:W1", maxlen=("3", "4")), gen_pair("Covariance", "tree", "E6:E7,E8:E9,E9:E6", maxlen=("3", "4")), gen_seq(ALLM, E09), gen_tree(ALLM, "E0,E4,E6,E7,E8,E9"), gen_hist(ALLM, "E6,E7,E8,E9")],
         "rule": "all behaviours of C01/C02 replayed under embeddings without any conditioning bound (one-ulp spreads at 2^52, "
                 "denormals, 1e149, offsets 1e15 spreads); sign and range conditions on every observation",
         "bounds": {"quick": "L <= 5; tree L <= 4", "thorough": "L <= 7; tree L <= 5"},
@@ -119,10 +142,34 @@ PROPS = {
     "C18": {
         "title": "a serde round trip at any point is invisible",
         "mc": [MC_MERGE],
-        "replay": [gen_hist(ALLM, "E0,E3,E5", depth=("5", "6"), slots=("{1}", "{1, 2}")), gen_hist(ALLM, "E0,E5")],
+        "replay": [gen_pair("Weighted", "hist", "E0:W0,E5:W2", depth=("3", "4")), gen_pair("Covariance", "hist", "E0:E0,E3:E5", depth=("3", "4")), gen_hist(ALLM, "E0,E3,E5", depth=("5", "6"), slots=("{1}", "{1, 2}")), gen_hist(ALLM, "E0,E5")],
         "rule": "every history with checkpoints at every position; two real executions (with / without the JSON round trip) "
                 "compared bit for bit on every accessor",
         "bounds": {"quick": "depth <= 5 one slot, depth <= 4 two slots", "thorough": "depth <= 6 / 5"},
         "assumptions": ["serde_json with float_roundtrip is lossless for finite f64"],
+    },
+    "C08": {
+        "title": "weighted mean and its error equal the exact weighted statistics",
+        "mc": [MC_W, MC_W1],
+        "replay": [gen_pair("Weighted", "seq", WE, maxlen=("4", "5")),
+                   gen_pair("Weighted", "tree", "E0:W0,E3:W1,E5:W2", maxlen=("3", "4")),
+                   gen_pair("Weighted", "hist", "E0:W0,E5:W2", depth=("3", "4"))],
+        "rule": "every sequence of (value, weight) pairs over {-1,0,2} x {0,1,3} up to the length bound (zero weights at every "
+                "position, first included), every chunking into <= 3 chunks and merge tree, arbitrary histories; "
+                "WeightedMean and WeightedMeanWithError; value embeddings x weight scales 2^-19, 1, 2^18",
+        "bounds": {"quick": "seq L <= 4; tree L <= 3, K <= 3; hist depth <= 3", "thorough": "seq L <= 5; tree L <= 4; hist depth <= 4"},
+        "assumptions": ["as C01"],
+    },
+    "C09": {
+        "title": "covariance reports exact means, variances, covariance and Pearson correlation",
+        "mc": [MC_C, MC_C1],
+        "replay": [gen_pair("Covariance", "seq", CE, maxlen=("4", "5")),
+                   gen_pair("Covariance", "tree", "E0:E0,E3:E5,E5:E3", maxlen=("3", "4")),
+                   gen_pair("Covariance", "hist", "E0:E0,E3:E5", depth=("3", "4"))],
+        "rule": "every sequence of pairs over {-1,0,2}^2 up to the length bound (collinear, anti-collinear, partially correlated), "
+                "every chunking and merge tree, arbitrary histories; independent embeddings of x and y; a twin object fed the "
+                "swapped pairs is checked against the swapped specification values",
+        "bounds": {"quick": "seq L <= 4; tree L <= 3, K <= 3; hist depth <= 3", "thorough": "seq L <= 5; tree L <= 4; hist depth <= 4"},
+        "assumptions": ["as C01"],
     },
 }
